@@ -41,6 +41,7 @@ InvHVerdictBlocked       == HVerdictBlocked(o) \/ Bad("HVerdictBlocked")
 InvHVerdictEarly         == HVerdictEarly(o) \/ Bad("HVerdictEarly")
 InvHVerdictBoundary      == HVerdictBoundary(o) \/ Bad("HVerdictBoundary")
 InvHNoChildLeft          == HNoChildLeft(o) \/ Bad("HNoChildLeft")
+InvHNotEarlyTimeout      == HNotEarlyTimeout(o) \/ Bad("HNotEarlyTimeout")
 InvSIntOnTime            == SIntOnTime(o) \/ Bad("SIntOnTime")
 InvSKillOnTime           == SKillOnTime(o) \/ Bad("SKillOnTime")
 InvSKillNotBeforeGrace   == SKillNotBeforeGrace(o) \/ Bad("SKillNotBeforeGrace")
